@@ -10,6 +10,7 @@
 from mc import env
 from mc import explore, par
 from mc.report import Report, Acc, exc_sig
+from mc.canon import canon
 
 import copy
 
@@ -133,6 +134,25 @@ def rrs_answer_frame(ip):
     return hdap(0x11, [0x00, 0x80], ip + b"\x00" + (300).to_bytes(4, "big"))
 
 
+def rrs_effect(d):
+    """(radio ip, 'Online'|'Offline') implied by a well-formed data datagram carrying an RRS registration / going-offline, else None"""
+    p = parse_out(d)
+    if p is None or p["type"] & (T_REJECT | T_CLOSE | T_CONNECT | T_HB):
+        return None
+    rest = p["rest"]
+    if p["type"] & T_OPT:
+        so = split_options(rest)
+        if so is None:
+            return None
+        rest = so[1]
+    if len(rest) == 11 and rest[0] & 0x7F == 0x11 and rest[1] == 0 and rest[3:5] == b"\x00\x04" and rest[-1] == 0x03:
+        if rest[2] == 0x03:
+            return ip_str(rest[5:9]), "Online"
+        if rest[2] == 0x01:
+            return ip_str(rest[5:9]), "Offline"
+    return None
+
+
 class RecTransport:
     def __init__(self):
         self.sent = []
@@ -171,6 +191,8 @@ class RecDatagramTransport(DatagramTransport):
 
 
 PEER = ("192.0.2.10", 30001)
+# complete structural state of the real handler is part of every key; the transport only holds the last step's output
+IMPL_SKIP = frozenset({"transport", "_io", "_parent", "_root"})
 
 
 def registry_view(impl):
@@ -194,13 +216,20 @@ class Single(explore.System):
         self.m_connected = connected
         self.m_registry = {}
         self.obs = None
+        self.pending = []
+        if registry_view(self.impl):
+            # "after any history the registry holds ... the state implied by that radio's messages": a handler that has
+            # not received anything holds nothing (state leaking in from other handler instances)
+            self.pending.append(("fresh_handler_registry_not_empty", {"registry": registry_view(self.impl)}))
+            self.impl.registry.clear() if hasattr(self.impl.registry, "clear") else None
 
     def events(self):
         return list(self.KINDS)
 
     def step(self, kind):
         data = DG[kind]
-        viol = []
+        viol = list(self.pending)
+        self.pending = []
         self.tr.sent = []
         reg_before = registry_view(self.impl)
         conn_before = self.impl.hstrp_connected
@@ -274,7 +303,8 @@ class Single(explore.System):
         return viol
 
     def key(self):
-        return (self.impl.hstrp_connected, self.impl.sn, registry_view(self.impl), self.m_connected, tuple(sorted(self.m_registry.items())))
+        return (self.impl.hstrp_connected, self.impl.sn, registry_view(self.impl), self.m_connected, tuple(sorted(self.m_registry.items())),
+                repr(canon(self.impl, skip=IMPL_SKIP)))
 
 
 # ------------------------------------------------------------------------------------------------
@@ -299,6 +329,7 @@ class Closed(explore.System):
             p.hstrp_connected = conn
             self.h[name] = p
             self.tr[name] = t
+        self.m_reg = {"A": {}, "B": {}}  # per handler: registry implied by the datagrams *it* received
         self.inflight = []  # list of (dst_name, src_name, bytes), kept sorted (multiset)
         self.budget = self.BUDGET
         self.since_inject = 0
@@ -336,6 +367,14 @@ class Closed(explore.System):
             h.datagram_received(data, ADDR[src])
         except Exception as e:  # noqa: BLE001
             viol.append(("exception:" + exc_sig(e), {"event": list(ev), "datagram": data.hex(), "exc": repr(e)}))
+        eff = rrs_effect(data)
+        if eff is not None:
+            self.m_reg[dst][eff[0]] = eff[1]
+        for n in "AB":
+            if dict(registry_view(self.h[n])) != self.m_reg[n]:
+                viol.append(("registry_of_a_handler_differs_from_its_own_history", {"event": list(ev), "handler": n, "registry": registry_view(self.h[n]),
+                                                                                   "model": self.m_reg[n]}))
+                self.m_reg[n] = dict(registry_view(self.h[n]))
         for o, a in tr.sent:
             p = parse_out(o)
             if p is not None and p["type"] == T_HB:
@@ -357,6 +396,7 @@ class Closed(explore.System):
         return (
             tuple((n, self.h[n].hstrp_connected, self.h[n].sn, registry_view(self.h[n])) for n in "AB"),
             tuple(self.inflight), self.budget, self.since_inject, self.dead,
+            tuple(repr(canon(self.h[n], skip=IMPL_SKIP)) for n in "AB"),
         )
 
 
